@@ -78,10 +78,14 @@ func c07Section(a c07Alt, mid string) vAnsSection {
 	return s
 }
 
+// c07Mids: numeric but not the position, so that a mid derived from a section
+// count or index instead of the offer shows.
+var c07Mids = []string{"2", "0", "1"}
+
 func c07Sections(alts []int) []vAnsSection {
 	out := make([]vAnsSection, 0, len(alts))
 	for i, a := range alts {
-		out = append(out, c07Section(c07Alts[a], fmt.Sprint(i)))
+		out = append(out, c07Section(c07Alts[a], c07Mids[i]))
 	}
 
 	return out
@@ -392,7 +396,7 @@ func c07Reoffers(first []int, appendToo bool) [][]int {
 func TestVerifC07(t *testing.T) {
 	c := vkit.New("C07", "exploration")
 	defer c.Finish(t)
-	c.Rule("case = (first offer: every sequence of 1..N section alternatives, alternative = media type {audio, video, application, text, message} x direction attribute {sendrecv, sendonly, recvonly, inactive, none} x codec list {supported, unsupported only, mixed} (audio/video only), mids = position; local side {none, a recvonly transceiver per offered audio/video section, a sendrecv transceiver with track per offered audio/video section, recvonly transceivers of the audio/video kinds NOT offered}; MediaEngine {default, opus only}); SetRemoteDescription -> CreateAnswer on a fresh PeerConnection. Re-offer part: a second offer on the same PeerConnection after SetLocalDescription(answer) that replaces one section by another alternative of the same media type or appends a section. Non-trivial = CreateAnswer succeeded and the answer mirrors the offer, classed by (sections, rejected sections, round, local side, engine)")
+	c.Rule("case = (first offer: every sequence of 1..N section alternatives, alternative = media type {audio, video, application, text, message} x direction attribute {sendrecv, sendonly, recvonly, inactive, none} x codec list {supported, unsupported only, mixed} (audio/video only), mids = 2,0,1 by position; local side {none, a recvonly transceiver per offered audio/video section, a sendrecv transceiver with track per offered audio/video section, recvonly transceivers of the audio/video kinds NOT offered}; MediaEngine {default, opus only}); SetRemoteDescription -> CreateAnswer on a fresh PeerConnection. Re-offer part: a second offer on the same PeerConnection after SetLocalDescription(answer) that replaces one section by another alternative of the same media type or appends a section. Non-trivial = CreateAnswer succeeded and the answer mirrors the offer, classed by (sections, rejected sections, round, local side, engine)")
 	c.Assume("only what the statement says is judged: section count, order, media type and a=mid per section; whether an accepted or rejected section SHOULD have been accepted is not judged")
 	c.Assume("cases where SetRemoteDescription or CreateAnswer returns an error are not judged (the statement is about successful CreateAnswer)")
 	known := &c07Dropped{m: map[string]bool{}}
